@@ -151,7 +151,7 @@ class CopyWorld:
         snaps = 0
         for j in range(n_ops):
             table = [('set_a', 4), ('set_b', 2), ('same_a', 0.7), ('mut_l', 2), ('set_l', 1), ('mut_extra', 1.5), ('attr', 1.5), ('attach', 2.5),
-                     ('detach', 0.7), ('leaf', 4), ('watch', 1.5), ('update', 1.5), ('attach_inner', 2), ('leaf_inner', 2.5), ('mut_slot', 0.7),
+                     ('detach', 0.7), ('leaf', 4), ('watch', 1.5), ('update', 1.5), ('attach_inner', 2), ('leaf_inner', 2.5), ('mut_slot', 0.7), ('subbatch', 1.2),
                      ('snap', 3.5 if j >= 1 and snaps < 3 else 0)]
             k = weighted(rng, table)
             op = {'op': k, 'side': rng.randint(0, 3)}
@@ -163,6 +163,8 @@ class CopyWorld:
                 op['same'] = rng.random() < 0.1
             if k == 'attach':
                 op['equal'] = rng.random() < 0.25
+            if k == 'subbatch':
+                op['differs'] = rng.random() < 0.7
             ops.append(op)
         if not any(o['op'] == 'snap' for o in ops):
             ops.insert(len(ops) // 2 + 1, {'op': 'snap', 'side': 0, 'kind': rng.choice(['deepcopy', 'pickle2', 'pickle5'])})
@@ -274,6 +276,7 @@ class CopyWorld:
             before = others_before[si]
             n_calls = len(o.calls)
             undecided = False
+            custom_exp = None
             try:
                 if k == 'set_a':
                     o.a = fresh()
@@ -324,6 +327,24 @@ class CopyWorld:
                         o.param.watch(o.record1, ['b'], precedence=1)
                     else:
                         o.param.watch(o.record, ['b'])
+                elif k == 'subbatch':
+                    # a leaf change deferred by a batch on the sub-object, which is then replaced inside that batch; what a fresh
+                    # object does is found out by doing the same to a fresh object in the same state
+                    if o.sub is None or K is Plain:
+                        continue
+                    x1, x2 = fresh(), fresh()
+
+                    def both(obj):
+                        n0 = len(obj.calls)
+                        with param.parameterized.batch_call_watchers(obj.sub):
+                            obj.sub.v = x1
+                            obj.sub = Sub(v=x2 if op.get('differs', True) else x1, w=obj.sub.w, inner=None)
+                        return sorted(c[0] for c in obj.calls[n0:] if not c[0].startswith('watch'))
+                    twin = K()
+                    twin.sub = Sub(v=o.sub.v, w=o.sub.w, inner=None if o.sub.inner is None else Sub(v=o.sub.inner.v))
+                    custom_exp = both(twin)
+                    both(o)
+                    out.stats['probe.batched_leaf_then_replacement'] += 1
                 elif k == 'mut_slot':
                     if isinstance(o, Slotted):
                         o.slot_attr.append(fresh())
@@ -341,7 +362,7 @@ class CopyWorld:
                     break
             if out.violations:
                 break
-            exp = expected_calls(o, before, k)
+            exp = expected_calls(o, before, k) if custom_exp is None else custom_exp
             new_calls = [c[0] for c in o.calls[n_calls:]]
             got = [c for c in new_calls if not c.startswith('watch')]
             # user watchers of b run after the depends methods (precedence -1) and among themselves by precedence
